@@ -76,6 +76,32 @@ def _iter_rel_edit(s):
             m.note += 1
 
 
+def _iter_abs_edit_first(s):
+    for m in s.messages_abs():
+        if m.message_type is MT.NOTE_ON:
+            m.velocity = 98
+            break
+
+
+def _iter_rel_edit_first(s):
+    for m in s.messages_rel():
+        if m.message_type is MT.NOTE_ON:
+            m.velocity = 97
+            break
+
+
+def _first_on(ev, vel):
+    """model: the first note-on in stored order is the earliest; ties are avoided by the seeds' distinct onsets"""
+    ons = [e for e in ev if e[1] == "note_on"]
+    if not ons:
+        return ev
+    t0 = min(e[0] for e in ons)
+    firsts = [e for e in ons if e[0] == t0]
+    if len(firsts) != 1:
+        return None
+    return [e[:4] + (vel,) + e[5:] if e is firsts[0] else e for e in ev]
+
+
 def _add_abs_note(s):
     s.add_absolute_message(on(6, 72, 0, 50))
     s.add_absolute_message(off(18, 72, 0))
@@ -136,6 +162,8 @@ OPS = {
     "split_discard": (lambda s: s.split([10]), _ident, None),
     "iter_abs_edit": (_iter_abs_edit, lambda ev, d: ([e[:4] + (99,) + e[5:] if e[1] == "note_on" else e for e in ev], d), "abs"),
     "iter_rel_edit": (_iter_rel_edit, lambda ev, d: ([e[:3] + (e[3] + 1,) + e[4:] if e[1] in NOTE else e for e in ev], d), "rel"),
+    "iter_abs_edit_first": (_iter_abs_edit_first, lambda ev, d: (_first_on(ev, 98), d), "abs"),
+    "iter_rel_edit_first": (_iter_rel_edit_first, lambda ev, d: (_first_on(ev, 97), d), "rel"),
     "iter_abs_first": (lambda s: next(s.messages_abs(), None), _ident, None),
     "iter_rel_first": (lambda s: next(s.messages_rel(), None), _ident, None),
     "iter_abs_noedit": (_noedit_abs, _ident, None),
@@ -284,12 +312,14 @@ def check_step(s, op, ctx):
                     viols.append(("effect_not_visible:" + nm, f"{op} from {f0}: got {gev},{gd} expected notes {want},{d}"))
         else:
             wev, wd = model(list(ev), d)
-            wev = sorted(wev, key=lambda e: tuple((x is None, x) for x in e))
-            for nm, got in (("abs", post_abs), ("rel", post_rel)):
-                if got != (wev, wd):
-                    viols.append(("effect_not_visible:" + nm, f"{op} from {f0}: got {got} expected {(wev, wd)}"))
+            if wev is not None:      # None: the model declines (e.g. two first note-ons on one tick)
+                wev = sorted(wev, key=lambda e: tuple((x is None, x) for x in e))
+                for nm, got in (("abs", post_abs), ("rel", post_rel)):
+                    if got != (wev, wd):
+                        viols.append(("effect_not_visible:" + nm, f"{op} from {f0}: got {got} expected {(wev, wd)}"))
     # (3b) differential over freshness states
-    if pre_abs == pre_rel:
+    tie = op in ("iter_abs_edit_first", "iter_rel_edit_first") and _first_on(pre_abs[0], 0) is None
+    if pre_abs == pre_rel and not tie:   # with two first note-ons on one tick "the first" depends on stored order
         facts.append("differential_compared")
         for vn, c in variants.items():
             try:
